@@ -68,17 +68,36 @@ def _properties(run: Run) -> dict:
         lf = next((s for s in c.body if isinstance(s, ast.FunctionDef) and s.name == "lame_coefficients"), None)
         if lf is None:
             raise AnalysisError(f"C15: {c.name}.lame_coefficients not found")
-        env = {}
-        rd = VecReader(env, where=f"{c.name}.lame_coefficients")
+        # the method is evaluated (temporaries, tuple repetition, Integer(1) for S.One are all the same triple)
+        from ..pyreader import PyReader as _PyReader, Raised as _Raised
 
-        def special(r, n, tag=tag, table=table):
-            if isinstance(n, ast.Attribute) and isinstance(n.value, ast.Name) and n.value.id == "self" and n.attr in table:
-                return sv(tag, table[n.attr])
-            return None
-        rd.special = special
-        body = [s for s in lf.body if not (isinstance(s, ast.Expr) and isinstance(s.value, ast.Constant))]
-        val = rd.run(body)
-        if not (isinstance(val, list) and len(val) == 3):
+        class _SelfSystem:
+            pass
+
+        class _LameReader(_PyReader):
+
+            def hook_attr(self, base, attr, n, tag=tag, table=table):
+                if isinstance(base, _SelfSystem):
+                    if attr in table:
+                        return sv(tag, table[attr])
+                    if attr in ("base_scalars", "_base_scalars"):
+                        return [sv(tag, k_) for k_ in range(3)]
+                return NotImplemented
+
+            def hook_call(self, n, env, fns):
+                nm = (dotted(n.func) or "").split(".")[-1]
+                if nm in ("Integer", "Float", "Rational", "S") and len(n.args) == 1:
+                    return self.ev(n.args[0], env, fns)
+                return NotImplemented
+
+        methods = ast.Module(body=[x for x in m.tree.body if not isinstance(x, ast.ClassDef)] + [x for x in c.body if isinstance(x, ast.FunctionDef)], type_ignores=[])
+        try:
+            val = _LameReader(methods, f"{c.name}.lame_coefficients").call("lame_coefficients", [_SelfSystem()])
+        except _Raised as r_:
+            raise AnalysisError(f"C15: {c.name}.lame_coefficients raises {r_.exc}")
+        if isinstance(val, list):
+            val = [x if isinstance(x, T) else (num(x) if isinstance(x, int) and not isinstance(x, bool) else x) for x in val]
+        if not (isinstance(val, list) and len(val) == 3 and all(isinstance(x, T) for x in val)):
             raise AnalysisError(f"C15: {c.name}.lame_coefficients does not return a triple")
         lame[tag] = val
     if set(props) != {"C", "Y", "S"}:
